@@ -242,8 +242,13 @@ def _history(ctx, case, ar, members, ops, raw, tf):
     has_rl = False
     seek_then_read = False
     last_was_seek = {}
+    adj = ctx.extra.setdefault('op_adjacencies_observed', set())
+    prev = None
     for step, op in enumerate(ops):
         i, kind = op[0], op[1]
+        if prev is not None:
+            adj.add('%s->%s/%s' % (prev[1], kind, 'same-member' if prev[0] == i else 'other-member'))
+        prev = (i, kind)
         m, sh = live[i], shadows[i]
         touched.add(i)
         ctx.count('op:' + kind)
